@@ -157,6 +157,7 @@ public:
 
 	bool emptyQueue() const
 	{
+		EVENTPP_VERIF_POINT("q.empty.list.racy_r");
 		return queueList.empty() && (queueEmptyCounter.load(std::memory_order_acquire) == 0);
 	}
 
@@ -167,6 +168,7 @@ public:
 
 			{
 				std::lock_guard<Mutex> queueListLock(queueListMutex);
+				EVENTPP_VERIF_POINT("q.swap.cs.w");
 				std::swap(queueList, tempList);
 			}
 
@@ -176,6 +178,7 @@ public:
 				}
 
 				std::lock_guard<Mutex> queueListLock(freeListMutex);
+				EVENTPP_VERIF_POINT("q.recycle.cs.w");
 				freeList.splice(freeList.end(), tempList);
 			}
 		}
@@ -192,6 +195,7 @@ public:
 
 			{
 				std::lock_guard<Mutex> queueListLock(queueListMutex);
+				EVENTPP_VERIF_POINT("q.swap.cs.w");
 				std::swap(queueList, tempList);
 			}
 
@@ -202,6 +206,7 @@ public:
 				}
 
 				std::lock_guard<Mutex> queueListLock(freeListMutex);
+				EVENTPP_VERIF_POINT("q.recycle.cs.w");
 				freeList.splice(freeList.end(), tempList);
 
 				return true;
@@ -222,6 +227,7 @@ public:
 
 			{
 				std::lock_guard<Mutex> queueListLock(queueListMutex);
+				EVENTPP_VERIF_POINT("q.takefront.cs.w");
 				if(! queueList.empty()) {
 					tempList.splice(tempList.end(), queueList, queueList.begin());
 				}
@@ -233,6 +239,7 @@ public:
 				item.clear();
 
 				std::lock_guard<Mutex> queueListLock(freeListMutex);
+				EVENTPP_VERIF_POINT("q.recycle.cs.w");
 				freeList.splice(freeList.end(), tempList);
 
 				return true;
@@ -317,6 +324,7 @@ private:
 
 		{
 			std::lock_guard<Mutex> queueListLock(queueListMutex);
+			EVENTPP_VERIF_POINT("q.swap.cs.w");
 			std::swap(queueList, tempList);
 		}
 
@@ -350,11 +358,13 @@ private:
 
 			if (! tempList.empty()) {
 				std::lock_guard<Mutex> queueListLock(queueListMutex);
+				EVENTPP_VERIF_POINT("q.putback.cs.w");
 				queueList.splice(queueList.begin(), tempList);
 			}
 
 			if(! idleList.empty()) {
 				std::lock_guard<Mutex> queueListLock(freeListMutex);
+				EVENTPP_VERIF_POINT("q.recycle.cs.w");
 				freeList.splice(freeList.end(), idleList);
 
 				return true;
@@ -452,6 +462,7 @@ private:
 		if(! freeList.empty()) {
 			{
 				std::lock_guard<Mutex> queueListLock(freeListMutex);
+				EVENTPP_VERIF_POINT("q.reuse.cs.w");
 				if(! freeList.empty()) {
 					tempList.splice(tempList.end(), freeList, freeList.begin());
 				}
@@ -466,6 +477,7 @@ private:
 		it->set(std::move(item));
 
 		std::lock_guard<Mutex> queueListLock(queueListMutex);
+		EVENTPP_VERIF_POINT("q.enqueue.cs.w");
 		queueList.splice(queueList.end(), tempList, it);
 	}
 
